@@ -81,7 +81,26 @@ def _supervise(a, tier):
     import time
     hang = os.path.join(ROOT, ".work", "hang_%d.txt" % os.getpid())
     env = dict(os.environ, VERIF_INNER="1", VERIF_HANGFILE=hang)
-    p = subprocess.Popen([sys.executable, "-m", "vlib.cli"] + sys.argv[1:], env=env, cwd=ROOT, start_new_session=True)
+    def _child_setup():
+        os.setsid()
+        try:                                    # Linux: the child is killed when this supervisor dies (e.g. an outer `timeout -s KILL`)
+            import ctypes
+            ctypes.CDLL("libc.so.6", use_errno=True).prctl(1, 9)
+        except Exception:
+            pass
+    p = subprocess.Popen([sys.executable, "-m", "vlib.cli"] + sys.argv[1:], env=env, cwd=ROOT, preexec_fn=_child_setup)
+
+    def _forward(signum, frame):                # an outer SIGTERM / SIGINT ends the child and its workers as well
+        try:
+            os.killpg(p.pid, signal.SIGKILL)
+        except OSError:
+            pass
+        sys.exit(128 + signum)
+    for sg in (signal.SIGTERM, signal.SIGINT, signal.SIGHUP):
+        try:
+            signal.signal(sg, _forward)
+        except (ValueError, OSError):
+            pass
     secs = _watchdog_seconds(tier) + 60
     try:
         rc = p.wait(timeout=secs)
